@@ -112,6 +112,7 @@ def tlc(scratch, spec, cfg, workers=None, timeout=600, env_extra=None, extra=Non
     res["ok"] = ("Model checking completed. No error has been found." in out) and rc == 0
     res["violated"] = re.findall(r"Error: Invariant (\S+) is violated", out) + \
         re.findall(r"Error: Temporal properties were violated", out) + \
+        re.findall(r"Error: Temporal property (\S+) was violated", out) + \
         re.findall(r"Error: Action property (\S+)", out) + \
         (["deadlock"] if "Error: Deadlock reached" in out else [])
     res["timeout"] = rc == 124
